@@ -288,6 +288,7 @@ def discarded_results(ctx, rule, prefixes, what):
     ctx.holds(rule, what + ' (no discarded result of a value-returning builtin among %d call statements)' % n, None)
     # the other classic: a callable created per iteration that reads the loop variable when it is finally CALLED.  Collected into a list (or built by an eager
     # comprehension) and applied after the loop, every one of them sees the last element.
+    stale_derived_values(ctx, rule, prefixes, what)
     from .rules.c16 import late_bound_in
     fns = [fn for fn in ctx.M.all_funcs() if fn.parent is None and any(fn.path.startswith(p_) for p_ in prefixes)]
     for site_, names_, src_ in late_bound_in(fns, with_yield=False):
@@ -295,10 +296,150 @@ def discarded_results(ctx, rule, prefixes, what):
                       % (src_[:70], 's' if len(names_) > 1 else '', ', '.join(names_)), key='%s|late-binding|%s' % (rule, site_.split(':')[0]))
 
 
+def unread_atoms(M, got, expected=None):
+    """Parts of a computed term that were not reduced to the stored fields a formula rule speaks about: calls of package functions left un-inlined, callables
+    applied opaquely, and attributes that are *properties* of some package class (a stored derived figure, a projection the engine could not see through).
+    A formula that differs from the expected one only through such parts has not been read; one that differs in plain fields and arithmetic has, and deviates."""
+    exp_sub = set()
+    if expected is not None:
+        for e_ in (expected if isinstance(expected, (list, set)) else [expected]):
+            exp_sub |= {T.tkey(s_) for s_ in T.subterms(e_)}
+    props = getattr(M, '_prop_names', None)
+    if props is None:
+        props = {n_ for c_ in M.classes.values() for n_, m_ in c_.methods.items() if m_.is_property}
+        M._prop_names = props
+    out = []
+    for s_ in (T.subterms(got) if isinstance(got, tuple) else ()):
+        if T.tkey(s_) in exp_sub:
+            continue
+        if s_[0] == 'call' and (s_[1][0] == 'fn' or s_[1] == ('ext', 'APPLY')):
+            out.append(s_)
+        elif s_[0] == 'lambda':
+            out.append(s_)
+        elif s_[0] == 'attr' and s_[2] in props:
+            out.append(s_)
+    return out
+
+
 def unread_calls(t):
     """calls to functions of the package that a term still contains un-inlined (the engine could not, or was told not to, read them through): a formula holding one
     has not been read completely"""
     return [s_ for s_ in T.subterms(t) if s_[0] == 'call' and s_[1][0] == 'fn'] if isinstance(t, tuple) else []
+
+
+def derived_fields(M, c):
+    """{D: (deps, refreshers)} for class c: D is a field whose stored value is COMPUTED from other fields of the same object - `self.D = f(self.A, self.B)` in
+    the constructor or in a method the constructor calls (a recalculate() step), or a table `self.D[...] = f(self.A)` filled lazily by a method.  deps = the fields
+    read; refreshers = names of the methods of c that (re)assign D as a whole."""
+    def self_loads(e):
+        return {n.attr for n in ast.walk(e) if isinstance(n, ast.Attribute) and isinstance(n.ctx, ast.Load) and isinstance(n.value, ast.Name) and n.value.id == 'self'}
+    out = {}
+    meths = {n: m for n, m in c.methods.items() if '@' not in n}
+    assigned_in = {}
+    for name, m in meths.items():
+        for s in ast.walk(m.node):
+            tgts = s.targets if isinstance(s, ast.Assign) else ([s.target] if isinstance(s, (ast.AnnAssign, ast.AugAssign)) and getattr(s, 'value', None) is not None else [])
+            for t in tgts:
+                whole = isinstance(t, ast.Attribute) and isinstance(t.value, ast.Name) and t.value.id == 'self'
+                elem = isinstance(t, ast.Subscript) and isinstance(t.value, ast.Attribute) and isinstance(t.value.value, ast.Name) and t.value.value.id == 'self'
+                if not (whole or elem):
+                    continue
+                fld = t.attr if whole else t.value.attr
+                deps = self_loads(s.value) - {fld}
+                # a plain copy of a parameter or a constant derives nothing; a method call on self counts through what it reads (one level)
+                for call in ast.walk(s.value):
+                    if isinstance(call, ast.Call) and isinstance(call.func, ast.Attribute) and isinstance(call.func.value, ast.Name) and call.func.value.id == 'self' \
+                            and call.func.attr in meths:
+                        deps |= self_loads(meths[call.func.attr].node) - {fld}
+                deps = {d for d in deps if d not in meths or meths[d].is_property is False}
+                deps = {d for d in deps if d not in meths}
+                if whole:
+                    assigned_in.setdefault(fld, set()).add(name)
+                if deps:
+                    ent = out.setdefault(fld, [set(), set(), elem])
+                    ent[0] |= deps
+                    ent[2] = ent[2] and elem
+    res = {}
+    for fld, (deps, _, only_elem) in out.items():
+        res[fld] = (deps, assigned_in.get(fld, set()), only_elem)
+    return res
+
+
+def stale_derived_values(ctx, rule, prefixes, what):
+    """A stored figure computed from other fields must be recomputed by whoever changes those fields afterwards: a setter (or any method) that assigns a field
+    some derived field depends on, and neither reassigns the derived field, nor calls a method of the object that does, nor replaces the whole object, leaves
+    the derived value stale.  Structural, per class; writers are looked for in the class itself and, for helper objects kept in a field, in the owner's module."""
+    M = ctx.M
+    n_checked = 0
+    for c in M.classes.values():
+        if not any(c.path.startswith(p_) for p_ in prefixes):
+            continue
+        der = derived_fields(M, c)
+        if not der:
+            continue
+        meths = {n: m for n, m in c.methods.items()}
+        ctor_side = {n for n, m in meths.items() if n == '__init__' or M.ctor_only(m)}
+        # who holds instances of c in a field:  self.<h> = c(...)  anywhere in the module  ->  writes through self.<h>.<A>
+        holders = set()
+        for fn in M.all_funcs():
+            if fn.path != c.path:
+                continue
+            for s in ast.walk(fn.node):
+                if isinstance(s, ast.Assign) and isinstance(s.value, ast.Call) and isinstance(s.value.func, ast.Name) and s.value.func.id == c.name:
+                    for t in s.targets:
+                        if isinstance(t, ast.Attribute) and isinstance(t.value, ast.Name) and t.value.id == 'self':
+                            holders.add(t.attr)
+        for D, (deps, refreshers, only_elem) in sorted(der.items()):
+            if only_elem and not refreshers:
+                continue
+            refreshing = set(refreshers)
+            # methods that call a refresher on self refresh too (one level is what the package uses)
+            for n, m in meths.items():
+                if any(isinstance(k, ast.Call) and isinstance(k.func, ast.Attribute) and isinstance(k.func.value, ast.Name) and k.func.value.id == 'self' and k.func.attr in refreshers
+                       for k in ast.walk(m.node)):
+                    refreshing.add(n)
+            for fn in M.all_funcs():
+                if fn.path != c.path or fn.parent is not None:
+                    continue
+                inside = fn.cls is c
+                if inside and (fn.name in ctor_side or fn.name in refreshers):
+                    continue
+                for s in ast.walk(fn.node):
+                    tgts = s.targets if isinstance(s, ast.Assign) else ([s.target] if isinstance(s, (ast.AugAssign, ast.AnnAssign)) else [])
+                    for t in tgts:
+                        b = t
+                        while isinstance(b, ast.Subscript):
+                            b = b.value
+                        if not (isinstance(b, ast.Attribute) and b.attr in deps):
+                            continue
+                        obj = b.value
+                        if inside and isinstance(obj, ast.Name) and obj.id == 'self':
+                            objtxt = 'self'
+                        elif not inside and isinstance(obj, ast.Attribute) and isinstance(obj.value, ast.Name) and obj.value.id == 'self' and obj.attr in holders:
+                            objtxt = 'self.' + obj.attr
+                        else:
+                            continue
+                        n_checked += 1
+                        # does the same function bring D up to date afterwards?  (reassign obj.D, call obj.<refreshing method>(), or rebuild the holder object)
+                        ok = False
+                        for k in ast.walk(fn.node):
+                            if getattr(k, 'lineno', 0) < s.lineno:
+                                continue
+                            if isinstance(k, ast.Call) and isinstance(k.func, ast.Attribute) and ast.unparse(k.func.value) == objtxt and k.func.attr in refreshing:
+                                ok = True
+                            kt = k.targets if isinstance(k, ast.Assign) else ([k.target] if isinstance(k, (ast.AugAssign, ast.AnnAssign)) else [])
+                            for t2 in kt:
+                                if isinstance(t2, ast.Attribute) and t2.attr == D and ast.unparse(t2.value) == objtxt:
+                                    ok = True
+                                if not inside and isinstance(t2, ast.Attribute) and ast.unparse(t2) == objtxt and k is not s:
+                                    ok = True
+                        if not inside:
+                            # the whole assignment may itself be a rebuild of the holder:  self.h = replace(self.h, A=v)
+                            pass
+                        if not ok:
+                            ctx.violation(rule, what, fn.site(s), '%s assigns %s.%s, from which %s.%s was computed (%s), and does not recompute it: the stored %s goes stale'
+                                          % (fn.qn, objtxt, b.attr, c.name, D, ', '.join(sorted(deps)), D), key='%s|stale|%s.%s|%s' % (rule, c.name, D, fn.qn))
+    ctx.holds(rule, what + ' (derived stored values are refreshed by every writer of what they derive from: %d writer sites)' % n_checked, None)
 
 
 def class_level_table(M, cls, fld):
